@@ -426,6 +426,58 @@ int main(int argc, char **argv) {
                         if (!e3.empty() || !r3 || obs::render(again) != te) vf::violation(sigbase + "|deleting the re-created entity|state differs from the one before its creation", ctx, obs::diff(te, obs::render(again), 12));
                     }
                 }
+                // (3'') a SECOND deletion in the same session: one entity that a link of the graph connects with the first victim's family
+                // (the other end of such a link) is deleted next - by the handles of the observation taken before the FIRST deletion it must
+                // report invalid, and the state must be the model's.  (Whatever the first deletion left behind must not keep it alive.)
+                bool second_done = false;
+                if (!sub.empty() && sub.size() <= 6 && te == ta) {
+                    std::set<std::string> fam = family(v.name);
+                    for (const Victim &v2 : vict) {
+                        if (fam.count(v2.name) || v2.kind == "Block") continue;
+                        bool linked = false;
+                        for (int li : sub) { std::set<std::string> e = endpoints(menu[li].name); bool a = false, bb = false; for (auto &x : e) { if (fam.count(x)) a = true; if (x == v2.name) bb = true; } if (a && bb) linked = true; }
+                        if (!linked) continue;
+                        obs::Node *vn2 = nullptr;
+                        obs::walk(after, [&](obs::Node &n) { if (!vn2 && n.kind == v2.kind && n.name == v2.name) vn2 = &n; });
+                        if (!vn2) continue;
+                        std::string vid2 = vn2->id;
+                        std::set<std::string> gone2; obs::collect_ids(*vn2, gone2);
+                        obs::Node expected2 = after; obs::remove_entities(expected2, gone2); normalise(expected2);
+                        // variant A (every second scenario): the handles of the first victim's subtree taken before its deletion are dropped
+                        // first - nothing of it is alive any more; variant B: they stay alive (a program still holding a handle of a deleted
+                        // holder), which the pinned tree does not survive: see known findings
+                        const bool holder_handles_alive = ((vi + (size_t)mode + si) % 2) == 1;
+                        if (!holder_handles_alive) {
+                            own = Owners(); own_quiet = Owners();     // (they may be handles of the first victim: a block, a parent source / section)
+                            for (auto &gid : gone) { pool.blocks.erase(gid); pool.arrays.erase(gid); pool.frames.erase(gid); pool.tags.erase(gid); pool.mtags.erase(gid); pool.groups.erase(gid);
+                                                     pool.sources.erase(gid); pool.sections.erase(gid); pool.properties.erase(gid); pool.features.erase(gid); }
+                            for (auto it = pool.dims.begin(); it != pool.dims.end();) { bool drop = false; for (auto &gid : gone) if (it->first.compare(0, gid.size(), gid) == 0) drop = true; if (drop) it = pool.dims.erase(it); else ++it; }
+                        }
+                        const std::string alive_cls = holder_handles_alive ? "a handle of the first victim still alive" : "no handle of the first victim alive";
+                        bool ret2 = false; std::string what2;
+                        std::string exc2 = vf::guarded([&] { ret2 = do_delete(f, v2, (mode + 1) % 3, vid2); }, &what2);
+                        vf::count("second_deletions");
+                        std::string ctx2 = ctx + "; then delete " + v2.kind + " " + v2.name + " " + MODES[(mode + 1) % 3];
+                        if (!exc2.empty() || !ret2) { vf::violation("C04|second deletion in the session|delete " + v2.kind + "|" + (exc2.empty() ? "returned false" : "throws " + exc2), ctx2 + " " + what2); second_done = true; break; }
+                        obs::Node after2 = obs::observe(f, oo); std::string bf2; normalise(after2, &bf2);
+                        std::string t2e = obs::render(expected2), t2a = obs::render(after2);
+                        if (t2e != t2a) vf::violation("C04|second deletion in the session|delete " + v2.kind + "|state after delete differs from model", ctx2, obs::diff(t2e, t2a, 12));
+                        std::set<std::string> self2 = {vid2}; std::string valid3;
+                        still_valid(pool.arrays, self2, "DataArray", valid3); still_valid(pool.frames, self2, "DataFrame", valid3); still_valid(pool.tags, self2, "Tag", valid3); still_valid(pool.mtags, self2, "MultiTag", valid3);
+                        still_valid(pool.groups, self2, "Group", valid3); still_valid(pool.properties, self2, "Property", valid3);
+                        still_valid(pool.sources, v2.kind == "Source" ? gone2 : self2, "Source", valid3); still_valid(pool.sections, v2.kind == "Section" ? gone2 : self2, "Section", valid3);
+                        if (!valid3.empty()) {
+                            if (holder_handles_alive) vf::violation("C04|second deletion in the session, " + alive_cls + "|handle of the second victim still reports valid", ctx2 + " (" + valid3 + ", first victim " + v.kind + ")");
+                            else vf::violation("C04|second deletion in the session, " + alive_cls + "|delete " + v2.kind + "|handle still reports valid|" + valid3 + "|first victim: " + v.kind, ctx2);
+                        }
+                        std::string found2 = lookups_after(f, v2, vid2);
+                        if (!found2.empty()) vf::violation("C04|second deletion in the session|delete " + v2.kind + "|deleted entity still found|" + found2, ctx2);
+                        te = t2e; ta = t2a;      // the reopen comparison below refers to the state after both deletions
+                        second_done = true;
+                        break;
+                    }
+                }
+                (void)second_done;
                 // (4) after reopen
                 pool.clear();
                 vf::set_clock(1500000400);
